@@ -1,5 +1,5 @@
 """C13 - results are deterministic and independent of call history."""
-from contracts import flow, history, inputs
+from contracts import flow, gfunc, history, inputs  # noqa: F401
 from props.common import *  # noqa: F401,F403
 
 SIM = [f"{G}:BaseGHE._simulate_detailed", f"{G}:GHE.simulate#hybrid-body", f"{G}:GHE.simulate#hourly-body-fresh", f"{G}:GHE.simulate#hourly-body-after-another-simulation", f"{G}:GHE.simulate#hourly-body-array-loads"]
@@ -9,8 +9,9 @@ FUNCTIONS = (SIM + [f"{G}:BaseGHE.grab_g_function#body", f"{G}:BaseGHE.compute_g
              + [f"{M}:GHEManager.find_design#DesignNearSquare-nocap", f"{M}:GHEManager.find_design#DesignNearSquare-cap",
                 f"{M}:GHEManager.find_design#DesignRectangle-nocap", f"{M}:GHEManager.find_design#DesignRectangle-cap"]
              + inputs.SETTERS + flow.SET_DESIGN)
-NATIVE_FUNCTIONS = [f"{M}:GHEManager.find_design", f"{G}:GHE.simulate"]
+NATIVE_FUNCTIONS = [f"{M}:GHEManager.find_design", f"{G}:GHE.simulate", f"{GF}:GFunction.g_function_interpolation"]
 NATIVE_CASES = {"quick": 3, "thorough": 60}
+NATIVE_CASES_BY_FUNCTION = {f"{GF}:GFunction.g_function_interpolation": {"quick": 60, "thorough": 3000}}
 NATIVE_LIMIT_S = {"quick": 150, "thorough": 3000}
 CASE_TIMEOUT = 400
 LEVEL = "other"
@@ -33,7 +34,8 @@ NOT_PROVED = ["the composition 'every sequence of API calls ending in the same c
               "module-level or class-level state: a scan of every module of the package (evidence: module_state_scan) decides syntactically, by name, that no function of the package rebinds or mutates a module-level binding, "
               "a class attribute, a mutable default argument or an attribute of an imported module, and that nothing is memoised by decorator; a mutation through an alias of a module-level object is "
               "not seen by that scan; where the scan finds such state the module is outside the verifier's subset (NO-VERDICT, exit 2, never a VIOLATION by itself: a memo keyed by everything the result depends on is harmless) (bounded runs: a sibling design differing in one thermal property is compared with the same design computed by a fresh interpreter)",
-              "GFunction.g_function_interpolation caches its interpolation table with the kind/fill_value of the first call (body out of reach): bounded runs only"]
+              "GFunction.g_function_interpolation builds its interpolation table on the first query and reuses it (body out of reach): bounded runs compare every ordered pair of queries "
+              "between / below / above the stored heights on a used object with the same query on a fresh object (found D19: in-range first, then out-of-range raised ValueError; repaired)"]
 EXPLANATION = ("Every function between the API and the temperatures is under a contract whose postcondition gives the result as a function of the *configuration* fields only, for arbitrary "
                "values of the residue fields, and whose frame (obligation frame/only-declared-locations-change, proved for every normal exit) names the only locations it writes: "
                "GHE.simulate (hybrid, hourly on a fresh object, hourly after another simulation: same postcondition; writes times/loading/hp_eft/dTb/bhe_eq only; the borehole height is untouched), "
